@@ -521,6 +521,24 @@ func forkExperiment(w *World, rep *verifutil.Report, r *verifutil.Rng, sc, step 
 	if fmt.Sprint(want) != fmt.Sprint(got) {
 		rep.Violation("reverted-txs-differ", fmt.Sprintf("abandoned blocks carried %d txs, %d were handed back (%v vs %v)", len(want), len(got), want, got), nil)
 	}
+	// ---- certificates: a node that followed the fork keeps the certificate of every block it got
+	// one for (at least until later blocks displace the non-permanent ones); they are what it
+	// serves to syncing peers
+	for _, fb := range fork {
+		if fb.Cert.Empty() {
+			continue
+		}
+		rep.Count("fork_certificates_delivered", 1)
+		if c := A.Chain.GetCertificate(fb.Block.Hash()); c.Empty() {
+			kind := "plain"
+			if fb.Block.Header.Flags().HasFlag(types.IdentityUpdate | types.Snapshot | types.NewGenesis) {
+				kind = "permanent-class"
+			}
+			rep.Violation("adoption-differs-from-clean-sync:certificate-not-stored:"+kind, fmt.Sprintf("fork block %d (%s) was delivered with a certificate of %d signatures, after adoption the node stores none for it (fork of %d blocks, tip %d)",
+				fb.Block.Height(), BlockKind(fb.Block), len(fb.Cert.Signatures), len(fork), fork[len(fork)-1].Block.Height()), nil)
+			break
+		}
+	}
 	// ---- re-inclusion: the engine hands the list to the pool as it got it
 	// (engine.txpool.AddExternalTxs(MempoolTx, revertedTxs...)); what the pool keeps must not be
 	// less than what it keeps when the same txs arrive in the order the abandoned blocks carried them
